@@ -36,18 +36,19 @@ type EntrySpec struct {
 }
 
 type Harness struct {
-	ID       string
-	Files    map[string]string // overlay target (abs path in /repo) -> source path
-	Pkgs     []string          // package patterns to load
-	Entries  []*EntrySpec
-	StubDecl [][2]string // callee name, harness func name
-	Reach    []string
-	Consts   [][3]string // file (repo-relative), const name, new value  (scaled constants)
-	Native   bool
-	Inverse  [][2]string // lemma f(g(x)) == x: {f, g}
-	Opaque   []string    // formatting functions: result "?" when an argument is symbolic
-	StubDyn  [][]string  // caller fn, harness func, callee-name prefixes that are NOT redirected
-	Notes    []string
+	ID        string
+	Files     map[string]string // overlay target (abs path in /repo) -> source path
+	Pkgs      []string          // package patterns to load
+	Entries   []*EntrySpec
+	StubDecl  [][2]string // callee name, harness func name
+	Reach     []string
+	Consts    [][3]string // file (repo-relative), const name, new value  (scaled constants)
+	Native    bool
+	Inverse   [][2]string // lemma f(g(x)) == x: {f, g}
+	Opaque    []string    // formatting functions: result "?" when an argument is symbolic
+	StubDyn   [][]string  // caller fn, harness func, callee-name prefixes that are NOT redirected
+	CallSites [][]string  // closed-world scans: target, package prefix, allowed functions
+	Notes     []string
 }
 
 type Config struct {
@@ -158,6 +159,8 @@ func parseHarness(id string, dir string) (*Harness, error) {
 				h.Reach = append(h.Reach, fields[1:]...)
 			case "const":
 				h.Consts = append(h.Consts, [3]string{fields[1], fields[2], fields[3]})
+			case "callsites":
+				h.CallSites = append(h.CallSites, fields[1:])
 			case "stubdyn":
 				h.StubDyn = append(h.StubDyn, fields[1:])
 			case "opaque":
